@@ -1047,6 +1047,11 @@ func (b *Builder) GenMethod(name string) *Method {
 		dref = "*" + dref
 	}
 	m.Src.Type, m.Dst.Type = sref, dref
+	if recv && dstPkg == "" && b.chance(0.2) {
+		// a generated METHOD may carry the name of a package-level declaration (here: its own result
+		// type); only functions share the package block
+		m.Name = dst.Name
+	}
 	if !reverse && b.chance(p.PHooks) {
 		if b.chance(0.6) {
 			b.genHook(m, "preprocess", sref, dref)
@@ -1190,6 +1195,8 @@ func (b *Builder) Finish() *Scenario {
 			mode = "differs"
 		case x < 0.2:
 			mode = "alias-collide"
+		case x < 0.27:
+			mode = "dot"
 		}
 	}
 	if b.usesM && mode == "differs" {
@@ -1211,6 +1218,24 @@ func (b *Builder) Finish() *Scenario {
 		}
 		s.Files[s.PkgRel+"/m/m.go"] = strings.Replace(s.Files[s.PkgRel+"/m/m.go"], "package m\n", "package ext\n", 1)
 		s.Feature("pkgname_alias_collides", "true")
+	}
+	if b.usesM && mode == "dot" {
+		// the setup file dot-imports the package: its types are written without a qualifier there
+		imp := "\"" + s.PkgPath() + "/m\""
+		// (not when a notation names a function or method of the package: how a notation refers to a
+		// dot-imported function is not documented)
+		inComments := false
+		for _, l := range strings.Split(s.Files[s.Setup], "\n") {
+			if i := strings.Index(l, "//"); i >= 0 && reUsesM.MatchString(l[i:]) {
+				inComments = true
+			}
+		}
+		if strings.Contains(s.Files[s.Setup], "\t"+imp+"\n") && !inComments {
+			reQ := regexp.MustCompile(`(^|[^A-Za-z0-9_."])m\.([A-Z])`)
+			su := strings.Replace(s.Files[s.Setup], "\t"+imp+"\n", "\t. "+imp+"\n", 1)
+			s.Files[s.Setup] = reQ.ReplaceAllString(su, "${1}${2}")
+			s.Feature("pkg_dot_imported", "true")
+		}
 	}
 	s.DrvImports = append(s.DrvImports, "\"vb/ext\"")
 	if b.usesM {
@@ -1238,8 +1263,20 @@ func GenBroad(r *rand.Rand, p Profile, id, pkgRel string) *Scenario {
 	for i := 0; i < nm; i++ {
 		it.Methods = append(it.Methods, b.GenMethod(fmt.Sprintf("Conv%c%d", 'A'+i, i)))
 	}
-	it.Methods = append(it.Methods, b.Pending...)
-	b.S.Ifaces = append(b.S.Ifaces, it)
+	if len(b.Pending) > 0 && r.Intn(3) == 0 {
+		// the generated converters live in a second converter interface that sorts before or after the
+		// one referring to them
+		second := &Iface{Name: []string{"AuxParts", "Parts"}[r.Intn(2)], Converter: true, Notations: []Notation{N("convergen")}, Methods: b.Pending}
+		if r.Intn(2) == 0 {
+			b.S.Ifaces = append(b.S.Ifaces, second, it)
+		} else {
+			b.S.Ifaces = append(b.S.Ifaces, it, second)
+		}
+		b.S.Feature("generated_converter_in", second.Name)
+	} else {
+		it.Methods = append(it.Methods, b.Pending...)
+		b.S.Ifaces = append(b.S.Ifaces, it)
+	}
 	b.S.Feature("profile", p.Name)
 	return b.Finish()
 }
